@@ -56,6 +56,9 @@ package tar
 //@ spec wfComplete(fs *ReaderFS, path string, info hackpadfs.FileInfo, r io.Reader) := wfOpenErr(fs, path, info) == nil && implements(wfDest(fs, path, info), io.Writer) &&
 //@        wfWriteErr(fs, path, info) == nil && (r == nil || wfCopyErr(fs, path, info, r) == nil) && wfCloseErr(fs, path, info, r) == nil
 
+// the error recorded by the reader goroutine, as UnarchiveErr reports it (atomic.Value: two ghost cells, see `read` below)
+//@ spec recordedErr(fs *ReaderFS) := asError(gint("atomtag", fs.unarchiveErr), gint("atomval", fs.unarchiveErr))
+
 //@ func (fs *ReaderFS) writeFile(path string, info hackpadfs.FileInfo, initialBuf *buffer, n int, r io.Reader, copyBuf *buffer) (returnedErr error)
 //@   props C12 C14
 //@   requires fs != nil && fs.unarchiveFS != nil && fs.ps != nil && info != nil && initialBuf != nil && 0 <= n && n <= len(initialBuf.Data) && (r == nil || copyBuf != nil)
@@ -80,6 +83,8 @@ package tar
 //@   requires fs != nil && fs.unarchiveFS != nil && fs.ps != nil
 //@   modifies world()
 //@   ensures "gate" [C04 C05] implies(!VP(name), f == nil && isPathError(err) && pathOf(err) == name && errIs(err, hackpadfs.ErrInvalid) && world() == old(world()))
+//@   ensures "unpack-failed" [C12] implies(VP(name) && recordedErr(fs) != nil, f == nil && isPathError(err) && pathOf(err) == name && opOf(err) == "open" && innerErr(err) == recordedErr(fs) && world() == old(world()))
+//@   ensures "unpacked" [C12] implies(VP(name) && recordedErr(fs) == nil, f == old(ret("hackpadfs.(FS).Open", 0, hackpadfs.FS(fs.unarchiveFS), name)) && err == old(ret("hackpadfs.(FS).Open", 1, hackpadfs.FS(fs.unarchiveFS), name)))
 //@   nopanic
 
 // ---- directory entries: the function literal that readProcessFile starts for a directory entry ----
@@ -182,4 +187,54 @@ package tar
 //@   propagates [C12 C14] readProcessFile
 //@   propagates [C12 C14] Next unless e == io.EOF
 //@   loop 1 invariant "entries-so-far-processed" !failed("readProcessFile") && !failed("Next") && fs != nil && fs.unarchiveFS != nil && fs.ps != nil && fs.callerCtx != nil
+//@   nopanic
+
+// ---- the outcome of unpacking: a failure of the reader loop is recorded, and the reader is always marked done ----
+// (atomic.Value as two ghost cells per address: dynamic type and payload of the stored value)
+//@ extern sync/atomic.(*Value).Store(v interface{})
+//@   requires self != nil && v != nil
+//@   modifies gint("atomtag", self), gint("atomval", self)
+//@   ensures "stored" gint("atomtag", self) == tag(v) && gint("atomval", self) == payload(v)
+//@ extern sync/atomic.(*Value).Load() (v interface{})
+//@   requires self != nil
+//@   ensures "loaded" tag(v) == gint("atomtag", self) && payload(v) == gint("atomval", self)
+//@ extern interface io.Closer.Close() (err error)
+//@   modifies world()
+
+//@ spec unpackFailed(fs *ReaderFS) := gint("atomtag", fs.unarchiveErr) != 0
+//@ spec readerOK(fs *ReaderFS) := fs != nil && fs.unarchiveFS != nil && fs.ps != nil && fs.callerCtx != nil && fs.readerCtx != nil && fs.callerCancel != nil && fs.readerDone != nil &&
+//@        cancels(fs.callerCancel, fs.callerCtx) && cancels(fs.readerDone, fs.readerCtx)
+
+//@ func (fs *ReaderFS) read(r io.Reader)
+//@   props C12 C14
+//@   requires readerOK(fs) && r != nil
+//@   tracks readErr
+//@   modifies world(), ghost("G|emitted"), gint("atomtag", fs.unarchiveErr), gint("atomval", fs.unarchiveErr), cancelled(fs.callerCtx), cancelled(fs.readerCtx)
+//@   ensures "failure-recorded" [C12 C14] implies(failed("readErr"), recordedErr(fs) != nil)
+//@   ensures "success-leaves-no-error" [C12] implies(!failed("readErr"), gint("atomtag", fs.unarchiveErr) == old(gint("atomtag", fs.unarchiveErr)) && gint("atomval", fs.unarchiveErr) == old(gint("atomval", fs.unarchiveErr)))
+//@   ensures "done" [C12] cancelled(fs.readerCtx) && cancelled(fs.callerCtx)
+//@   nopanic
+
+//@ func (fs *ReaderFS) UnarchiveErr() (err error)
+//@   props C12
+//@   requires fs != nil
+//@   ensures "recorded" [C12] err == recordedErr(fs)
+//@   nopanic
+
+// ---- the constructor: refuses a destination whose root is not an empty directory; otherwise starts the reader ----
+//@ func newPubsub(ctx context.Context) (ps *pubsub)
+//@   assumed
+//@   ensures "pubsub" ps != nil && fresh(ps)
+
+//@ spec nrDest(options ReaderFSOptions) := hackpadfs.FS(options.UnarchiveFS)
+//@ func NewReaderFS(ctx context.Context, r io.Reader, options ReaderFSOptions) (fs *ReaderFS, retErr error)
+//@   props C12
+//@   requires ctx != nil && r != nil
+//@   modifies world()
+//@   loop 1 invariant "names" rangeindex >= -1 && rangeindex < max(len(dirEntries), 1) && (len(dirEntries) > 0 || rangeindex == -1) && (ref(names) == 0 || fresh(names))
+//@   ensures "destination-not-empty" [C12] implies(options.UnarchiveFS != nil && (old(ret("hackpadfs.ReadDir", 1, nrDest(options), ".")) != nil || len(old(ret("hackpadfs.ReadDir", 0, nrDest(options), "."))) != 0),
+//@                     fs == nil && retErr != nil)
+//@   ensures "started" [C12] implies(retErr == nil, fs != nil && fresh(fs) && readerOK(fs) && !cancelled(fs.readerCtx) && recordedErr(fs) == nil &&
+//@                     implies(options.UnarchiveFS != nil, fs.unarchiveFS == options.UnarchiveFS))
+//@   ensures "failed" implies(retErr != nil, fs == nil)
 //@   nopanic
